@@ -413,6 +413,9 @@ class TriangularLattice(SquareLattice):
         # Hence, we store pattern in format Sequence[Sequence[int]].
         return {'type': type(self).__name__,
                 'dict_ver': 1,
+                'dims': self.dims,
+                'boundary': self.boundary,
+                'full_patch': self.full_patch,
                 'pattern': [[self.site2index((row, col)) for col in range(self.Ny)] for row in range(self.Nx)]}
 
 
